@@ -252,11 +252,9 @@ func vRun(op string, in M) M {
 			}
 		})
 		return M{"ok": ok, "panic": p}
-	case "merkle.lp2":
-		n := vIntOf(in["n"])
-		var k uint
-		p := vCatch(func() { k = largestPowerOfTwo(n) })
-		return M{"k": int(k), "panic": p}
+	}
+	if f, ok := vWB[op]; ok {
+		return f(in)
 	}
 	panic("unknown op " + op)
 }
@@ -294,7 +292,9 @@ func TestVerifDriver(t *testing.T) {
 			do("merkle.Big", M{"n": 300 + r.Intn(3000), "hash": []string{"sha256", "blake2b", "sha512", "sha384", "sha512_256"}[k%5]})
 			do("merkle.Big", M{"n": r.Intn(12), "hash": []string{"sha512", "sha384", "sha512_256", "sha256", "blake2b"}[k%5]})
 			do("merkle.Empty", M{"hash": []string{"sha256", "blake2b", "sha512"}[k%3]})
-			do("merkle.lp2", M{"n": 2 + r.Intn(1<<30)})
+			if vHasWB("merkle.lp2") {
+				do("merkle.lp2", M{"n": 2 + r.Intn(1<<30)})
+			}
 		}
 	})
 }
